@@ -36,6 +36,15 @@ def make_cases(chk):
             b.append(k * b[1])
             A.insert(0, list(A[1]))
             b.insert(0, b[1])
+        if i % 9 == 4 and A and any(A[0]):
+            # a single half-space, alone or followed by looser copies of itself: the one row that matters must survive
+            r0, v0 = A[0], b[0]
+            A, b = [r0], [v0]
+            if rng.random() < 0.6:
+                A += [list(r0), [2 * t for t in r0]]
+                b += [v0 + abs(v0) + 1, 2 * v0 + 3]
+                A = [[FR(float(t)) for t in r] for r in A]
+                b = [FR(float(t)) for t in b]
         cases.append({"id": "r%d" % i, "steps": [{"op": "redundant", "poly": aff_json(A, b, n)}], "A": A, "b": b,
                       "meta": {"category": cat, "n": n, "rows": len(A)}})
     return cases
